@@ -82,3 +82,48 @@ def replay(chk, rows, want, all_variants, seed, clauses, sig_kind):
     for k, v in tot.items():
         chk.coverage[k] = chk.coverage.get(k, 0) + v
     return tot
+
+
+def report_sessions(chk, rows, n, seed, sig_kind='constraint-verdict'):
+    """Fields with several constraints x report modes x ascii x added null-valued constraints -> Trace_VerifyReport."""
+    from . import verify_report as vr
+    from . import trace
+    rnd = random.Random(seed + 202)
+    r0 = tlc.run('MC_VerifyReport', 'MC_VerifyReport.cfg', name='MC_VerifyReport')
+    chk.add_tlc(r0)
+    if r0.violated:
+        chk.machinery_error('MC_VerifyReport violates %s' % r0.violated)
+    pick = rows if n >= len(rows) else rnd.sample(rows, n)
+    tasks = []
+    for i, r in enumerate(pick):
+        vs = cl.variants_for(r['col'])
+        pools = list(range(len(cl.STRING_POOLS))) if r['col']['t'] == 'string' else [0]
+        tasks.append((r, rnd.choice(vs), rnd.choice(pools), i * 1000))
+    with mp.Pool(16, initializer=cr.init_worker, initargs=(common.REPO,)) as pool:
+        results = pool.map(vr.report_row, tasks, chunksize=4)
+    events, details = [], {}
+    for (r, variant, p, _), out in zip(tasks, results):
+        if out['error']:
+            chk.machinery_error('report worker failed on %s: %s' % (json.dumps(r['col']), out['error']))
+            continue
+        events.extend(out['events'])
+        details.update(out['details'])
+        for m in out['mism']:
+            sig = {'kind': sig_kind, 'clause': m['clause'], 'ckind': m.get('kind'), 'coltype': r['col']['t'], 'variant': variant,
+                   'merged': True}
+            chk.violation(sig, dict(m, column=r['col'], variant=variant, how='verify_df on a field carrying one constraint of every kind'))
+    res, rejected = trace.validate('Trace_VerifyReport', 'Trace_VerifyReport.cfg', events, name='verify_report', workers=4)
+    chk.add_tlc(res)
+    chk.coverage['traces_validated_against_impl'] += len(tasks)
+    chk.coverage['report_lines'] = len(events)
+    for rej in rejected:
+        e = events[rej['line'] - 1]
+        d = details.get(e['tid'], {})
+        for clause in rej['bad']:
+            sig = {'kind': 'verify-report', 'clause': clause, 'coltype': d.get('column', {}).get('t'), 'variant': d.get('variant')}
+            if 'error' in d:
+                sig['error'] = d['error'].split(':')[0]
+            chk.violation(sig, {'case': d, 'event': e, 'how': 'verify_df(..., report=mode, ascii=...) / str(result) / result.to_frame(); '
+                                                              'judged by spec/Trace_VerifyReport.tla'})
+    if events:
+        chk.sample({'report_event': {k: v for k, v in events[0].items() if k != 'lines'}})
